@@ -8,7 +8,7 @@ const staticNote = "Static analysis of /repo's current source (type-checked synt
 
 func init() {
 	register("C01", propMeta{
-		Explanation: staticNote + "Decides the code-shape parts of convergence: (R1/R2) the merge decision table is a strict order on timestamps with an order-independent tie-break (table algebra over all ordering cells); (R3) the dump is complete: every non-private DBI reaches readDBI and every cursor entry is appended with key/value/timestamp/flags split out of the header, markers included; (R4) every snapshot DBI is applied through strategy.Update, every key through Get→Merge→setNewVal; (R5) in shadow mode the capture precedes both the dump and the projection.",
+		Explanation: staticNote + "Decides the code-shape parts of convergence: (R1/R2) the merge decision table is a strict order on timestamps with an order-independent tie-break (table algebra over all ordering cells); (R3) the dump is complete: every non-private DBI reaches readDBI and every cursor entry is appended with key/value/timestamp/flags split out of the header, markers included; (R4) every snapshot DBI is applied through strategy.Update, every key through Get→Merge→setNewVal; (R5) in shadow mode the capture precedes both the dump and the projection. Further (R7): raw-read mode is only ever switched on in the read-only snapshot transaction, and snapshot names sort chronologically (UTC, fixed width), because peers take the last name of an instance as its newest; the mirror loops visit every DBI unconditionally.",
 		NotDecided:  "Actual convergence over histories, delivery orders and clocks; the bucket; LMDB itself.",
 		Assumptions: []string{"convergence of a join-semilattice merge applied to complete state dumps (standard CRDT argument) is not re-proved here", "hooks (FilterReadDBI etc.) are nil by default"},
 	}, func(c *Check) {
@@ -42,7 +42,7 @@ func init() {
 	})
 
 	register("C02", propMeta{
-		Explanation: staticNote + "Extracts the complete decision table of the merge routine (every SSA path of NativeIterator.Merge with addHeader and all small helpers inlined: conditions over timestamps, values, flags, format version, cutoff; outcomes keep-the-parameter / drop / assembled header+value) and checks the algebraic laws of the property on that table for representatives of every cell of the finite ordering domain (timestamps incl. 0, values incl. empty, deleted flag, format versions 1..3, raw flag bits, every constant the table compares with). Only the extracted conditions and outcome terms are interpreted. Adequacy (the routine touches these quantities only through evaluable comparisons) is checked: any unrecognised use fails as undecided.",
+		Explanation: staticNote + "Extracts the complete decision table of the merge routine (every SSA path of NativeIterator.Merge with addHeader and all small helpers inlined: conditions over timestamps, values, flags, format version, cutoff; outcomes keep-the-parameter / drop / assembled header+value) and checks the algebraic laws of the property on that table for representatives of every cell of the finite ordering domain (timestamps incl. 0, values incl. empty, deleted flag, format versions 1..3, raw flag bits, every constant the table compares with). Only the extracted conditions and outcome terms are interpreted. Adequacy (the routine touches these quantities only through evaluable comparisons) is checked: any unrecognised use fails as undecided. Further (R8): strategy.Update merges every key the iterator yields against exactly the value stored under it in the same transaction (no path bypasses the lookup) and applies only that decision.",
 		NotDecided:  "LMDB writes themselves; stored values whose header does not parse (error path); deleted entries carrying a value (outside the schema); commutativity across a non-zero stale-marker cutoff (documented retention assumption; the drop rule itself is checked).",
 		Assumptions: []string{"header.Parse returns what PutBasic wrote (structure checked under C14)", "deleted entries carry an empty value (schema)"},
 	}, func(c *Check) {
@@ -78,7 +78,7 @@ func init() {
 	})
 
 	register("C03", propMeta{
-		Explanation: staticNote + "Decides the structural conditions under which a committed local write can be destroyed: (R1) the projection shadowToMain is only reached after mainToShadow ran in the same transaction or with localChanged == false, and localChanged ≡ lastTxnID < txn.ID()-1 on the caller's watermark; (R2) the transaction id reported as synced must come from inside the transaction (reports the known check-then-act on env.Info()); (R3) the projection's delete decision must depend on the deleted flag (reports the known empty-value defect); (R4) in native mode the load transaction mutates LMDB only through strategy.Update/OpenDBI(Create) and the dump is a read-only view; (R5) at start-up with data, the capture runs before the first load.",
+		Explanation: staticNote + "Decides the structural conditions under which a committed local write can be destroyed: (R1) the projection shadowToMain is only reached after mainToShadow ran in the same transaction or with localChanged == false, and localChanged ≡ lastTxnID < txn.ID()-1 on the caller's watermark; (R2) the transaction id reported as synced must come from inside the transaction (reports the known check-then-act on env.Info()); (R3) the projection's delete decision must depend on the deleted flag (reports the known empty-value defect); (R4) in native mode the load transaction mutates LMDB only through strategy.Update/OpenDBI(Create) and the dump is a read-only view; (R5) at start-up with data, the capture runs before the first load. Further (R8/R9): in the merge table a stored version is replaced or removed only by an LWW winner, for every stale-marker cutoff, and every key is merged against exactly its stored value; the two-sided walk visits every stored key also for an empty input; remote entries are merged with default timestamp 0 and the load-time cutoff.",
 		NotDecided:  "The interleavings themselves: no schedule is explored.",
 		Assumptions: []string{"LMDB: empty write transactions are not recorded; txn.ID() semantics"},
 	}, func(c *Check) {
@@ -118,7 +118,7 @@ func init() {
 
 func init() {
 	register("C04", propMeta{
-		Explanation: staticNote + "Decides marker handling in the decision tables and the cutoff arithmetic: (R1) deletion markers are dumped like any entry (no filtering by flag); (R2) a key missing from the application DBI becomes a marker stamped with the detection time, an existing marker is left alone; (R3/R4) in the merge table a deleted outcome has no value and timestamps decide regardless of the deleted flag; (R5) a marker is dropped exactly when absent ∧ deleted ∧ older than the cutoff; (R6) the load cutoff is 0 when the sweeper is off and now − RetentionDurationMinusCutoff() when on; (R7) RetentionDurationMinusCutoff() ∈ [0, RetentionDuration()] for every configuration (shape + path-condition proof incl. overflow); (R8) the projection deletes the application key of a marker.",
+		Explanation: staticNote + "Decides marker handling in the decision tables and the cutoff arithmetic: (R1) deletion markers are dumped like any entry (no filtering by flag); (R2) a key missing from the application DBI becomes a marker stamped with the detection time, an existing marker is left alone; (R3/R4) in the merge table a deleted outcome has no value and timestamps decide regardless of the deleted flag; (R5) a marker is dropped exactly when absent ∧ deleted ∧ older than the cutoff; (R6) the load cutoff is 0 when the sweeper is off and now − RetentionDurationMinusCutoff() when on; (R7) RetentionDurationMinusCutoff() ∈ [0, RetentionDuration()] for every configuration (shape + path-condition proof incl. overflow); (R8) the projection deletes the application key of a marker. Further: a deleted outcome never carries a value; the capture pass runs for every application DBI unconditionally (R9); the timestamp conversion of the cutoff cannot wrap; the iterator is built with the load-time cutoff.",
 		NotDecided:  "Propagation over histories; concurrency of sweeping (C13); format-version-1 snapshots combined with the sweeper.",
 		Assumptions: []string{"RetentionDuration() >= 0 (retention_days >= 0)"},
 	}, func(c *Check) {
@@ -155,7 +155,7 @@ func init() {
 	})
 
 	register("C05", propMeta{
-		Explanation: staticNote + "Decides the ordering and guard conditions that keep published data in the bucket: (R1) every SendOnce in syncLoop is behind !HasSnapshots (start-up) or behind Contains(ownInstanceID) == false; (R2) the waiting set is filled from SeenInstances() after a successful RunOnce(ctx, true) and instances are removed only when their update is loaded; (R3) the listing that fills it includes the own instance; (R4) SendOnce returns success only after a successful Store (retry loop shape; zero iterations excluded by configuration validation); (R5) the cleaner is told what is merged only after a successful Store, from a map written only after a committed merge; (R6) a failing SendOnce/LoadOnce leaves the loop; (R7) the cleaner's delete rules (C12).",
+		Explanation: staticNote + "Decides the ordering and guard conditions that keep published data in the bucket: (R1) every SendOnce in syncLoop is behind !HasSnapshots (start-up) or behind Contains(ownInstanceID) == false; (R2) the waiting set is filled from SeenInstances() after a successful RunOnce(ctx, true) and instances are removed only when their update is loaded; (R3) the listing that fills it includes the own instance; (R4) SendOnce returns success only after a successful Store (retry loop shape; zero iterations excluded by configuration validation); (R5) the cleaner is told what is merged only after a successful Store, from a map written only after a committed merge; (R6) a failing SendOnce/LoadOnce leaves the loop; (R7) the cleaner's delete rules (C12). Further: Config.Check establishes storage_retry_count >= 1 on every accepting path (otherwise the store loop runs zero times and SendOnce reports success).",
 		NotDecided:  "Crash points and storage fault sequences as such; the cleaners of other instances.",
 		Assumptions: []string{"simpleblob.Store is atomic per blob", "hooks are nil by default"},
 	}, func(c *Check) {
@@ -179,7 +179,7 @@ func init() {
 	})
 
 	register("C06", propMeta{
-		Explanation: staticNote + "Decides that a snapshot is assembled inside exactly one LMDB transaction and is complete: (R1) SendOnce runs one transaction whose body and everything it reaches start no other; readers get the body's txn; (R2) private DBIs are skipped, all others dumped; (R3) every cursor entry is appended with exactly key, application value, timestamp and masked flags (no transaction id); (R4) the snapshot time is one time.Now() taken inside the transaction and used for metadata, capture and file name; (R5) name and metadata carry the same database/instance; (R6) the recorded DBI flags are those of the original DBI.",
+		Explanation: staticNote + "Decides that a snapshot is assembled inside exactly one LMDB transaction and is complete: (R1) SendOnce runs one transaction whose body and everything it reaches start no other; readers get the body's txn; (R2) private DBIs are skipped, all others dumped; (R3) every cursor entry is appended with exactly key, application value, timestamp and masked flags (no transaction id); (R4) the snapshot time is one time.Now() taken inside the transaction and used for metadata, capture and file name; (R5) name and metadata carry the same database/instance; (R6) the recorded DBI flags are those of the original DBI. Further (R7/R8): the name states the snapshot time in UTC with fixed width and a sanitised instance; raw-read mode is only used in the read-only transaction; header.Parse/Skip split header and application value for every extension count.",
 		NotDecided:  "'Later snapshots carry later times' (clock); LMDB MVCC (trusted given R1).",
 		Assumptions: []string{"hooks (BeforeRead, FilterReadDBI, UpdateSnapshotInfo) are nil by default"},
 	}, func(c *Check) {
@@ -203,7 +203,7 @@ func init() {
 	})
 
 	register("C09", propMeta{
-		Explanation: staticNote + "Decides the upload trigger and the watermark discipline: (R1) in every pass of the main loop env.Info() is re-read and LastTxnID > watermark ∧ not waiting for own ∧ database not empty ⇒ SendOnce; (R2) the watermark lastSyncedTxnID is only moved to SendOnce's id after success, to LoadOnce's id when no local change was detected, or to Info's id for an empty database, and LoadOnce is given the current watermark; (R3) the id returned as synced must come from inside the transaction (known finding); (R4) SendOnce returns success only after a successful Store.",
+		Explanation: staticNote + "Decides the upload trigger and the watermark discipline: (R1) in every pass of the main loop env.Info() is re-read and LastTxnID > watermark ∧ not waiting for own ∧ database not empty ⇒ SendOnce; (R2) the watermark lastSyncedTxnID is only moved to SendOnce's id after success, to LoadOnce's id when no local change was detected, or to Info's id for an empty database, and LoadOnce is given the current watermark; (R3) the id returned as synced must come from inside the transaction (known finding); (R4) SendOnce returns success only after a successful Store. Further: Config.Check establishes storage_retry_count >= 1; in shadow mode every application DBI is captured unconditionally before the dump (R6).",
 		NotDecided:  "Interleavings; that the snapshot contains the write relies on C01-R3/C06.",
 		Assumptions: []string{"LMDB LastTxnID semantics"},
 	}, func(c *Check) {
@@ -225,7 +225,7 @@ func init() {
 	})
 
 	register("C10", propMeta{
-		Explanation: staticNote + "Decides the no-write / no-upload conditions: (R1) a non-winning merge returns the stored slice itself and setNewVal / the IterUpdate callback perform no LMDB mutation for an unchanged value; (R2) the capture use of the merge keeps an unchanged entry without re-stamping and Clean keeps an existing marker; merging an entry a second time is a keep (idempotence on the table); (R3) SendOnce in the main loop only with LastTxnID strictly above the watermark or an overdue forced snapshot (!ReceiveOnly ∧ interval > 0 ∧ elapsed > interval); (R4) merged remote data advances the watermark (does not count as a local change) exactly when no local change was detected.",
+		Explanation: staticNote + "Decides the no-write / no-upload conditions: (R1) a non-winning merge returns the stored slice itself and setNewVal / the IterUpdate callback perform no LMDB mutation for an unchanged value; (R2) the capture use of the merge keeps an unchanged entry without re-stamping and Clean keeps an existing marker; merging an entry a second time is a keep (idempotence on the table); (R3) SendOnce in the main loop only with LastTxnID strictly above the watermark or an overdue forced snapshot (!ReceiveOnly ∧ interval > 0 ∧ elapsed > interval); (R4) merged remote data advances the watermark (does not count as a local change) exactly when no local change was detected. Further (R5/R6): plain DBIs are projected with IterUpdate, only dupsort DBIs are rebuilt; the stale-marker cutoff is on exactly when the sweeper is.",
 		NotDecided:  "Fleet-level boundedness; dupsort DBIs (excluded by the statement).",
 		Assumptions: []string{"LMDB records no transaction when nothing was written"},
 	}, func(c *Check) {
@@ -255,7 +255,7 @@ func init() {
 	})
 
 	register("C18", propMeta{
-		Explanation: staticNote + "Decides all-or-nothing merging structurally: (R1) LoadOnce runs one write transaction; nothing reachable from its body starts another; every LMDB call in it gets the body's txn; (R2) every error of the body, the mirror passes, the strategies and the iterator reaches the caller as an error (so LMDB aborts); (R3) version gates: accepted exactly when fv != 0 ∧ fv >= Compat ∧ compat <= Current ∧ txn id != 0; (R4) in format version 1 an empty value denotes a deletion (merge table with fv = 1); (R5) private DBIs are ignored and ValidateTransform succeeds before the DBI is touched; its table is exact; (R6) the application DBI is created only from a v3+ snapshot or with explicit override flags; (R7) cancellation aborts.",
+		Explanation: staticNote + "Decides all-or-nothing merging structurally: (R1) LoadOnce runs one write transaction; nothing reachable from its body starts another; every LMDB call in it gets the body's txn; (R2) every error of the body, the mirror passes, the strategies and the iterator reaches the caller as an error (so LMDB aborts); (R3) version gates: accepted exactly when fv != 0 ∧ fv >= Compat ∧ compat <= Current ∧ txn id != 0; (R4) in format version 1 an empty value denotes a deletion (merge table with fv = 1); (R5) private DBIs are ignored and ValidateTransform succeeds before the DBI is touched; its table is exact; (R6) the application DBI is created only from a v3+ snapshot or with explicit override flags; (R7) cancellation aborts. Further: DBI.Next reports io.EOF only behind cursor >= len(data), so a DBI is never merged partially with success reported.",
 		NotDecided:  "Map-full at arbitrary points (LMDB abort semantics trusted given R1/R2); concurrent readers (LMDB MVCC).",
 		Assumptions: []string{"LMDB aborts a write transaction whose callback returns an error"},
 	}, func(c *Check) {
@@ -267,7 +267,7 @@ func init() {
 		c.Rule("C18-R6", "PRE-V3 DBI creation")
 		c.Rule("C18-R7", "CANCEL")
 		ruleOneTxn(c, "C18-R1", fnLoadOnce, fnLoadTxn, []string{fnMainToSh, fnShToMain, fnStratUpd, "lmdbenv.DBIExists", "(*lmdb.Txn).OpenDBI"})
-		ruleErrFlow(c, "C18-R2", fnLoadTxn, fnMainToSh, fnShToMain, fnStratUpd, fnIterUpd, fnIterUpd+"$callback", fnEmptyPut, "?lmdbenv/strategy.doPut", "?lmdbenv/strategy.setNewVal", "lmdbenv/strategy.iterBoth", "syncer.(*NativeIterator).Next", fnReadDBI)
+		ruleErrFlow(c, "C18-R2", fnLoadTxn, fnMainToSh, fnShToMain, fnStratUpd, fnIterUpd, iterUpdateCallback(c.P), fnEmptyPut, "?lmdbenv/strategy.doPut", "?lmdbenv/strategy.setNewVal", "lmdbenv/strategy.iterBoth", "syncer.(*NativeIterator).Next", fnReadDBI)
 		ruleLoadErrReturned(c, "C18-R2")
 		ruleNextEOF(c, "C18-R2")
 		ruleVersionGates(c, "C18-R3")
@@ -284,7 +284,7 @@ func init() {
 	})
 
 	register("C19", propMeta{
-		Explanation: staticNote + "Extracts and checks the decision tables of the three strategies the syncer uses: (R1) Update: Next → Get → Merge(stored) → setNewVal for every key; (R2) the IterUpdate callback: nine cells (stored-only / input-only / both × nil / equal / changed) each with exactly the prescribed single LMDB mutation or none; (R3) one step of iterBoth: six cells with exact callback arguments and exactly the consumed side(s) advancing; (R4) sortedness: an input key is accepted only if first or strictly greater than the previous one in the selected order, rejected only otherwise; (R5) comparator: integer comparator exactly for integerKey on little-endian hosts, three-way table, decoder widths; (R7) EmptyPut: Drop(dbi, false) before refill; setNewVal table.",
+		Explanation: staticNote + "Extracts and checks the decision tables of the three strategies the syncer uses: (R1) Update: Next → Get → Merge(stored) → setNewVal for every key; (R2) the IterUpdate callback: nine cells (stored-only / input-only / both × nil / equal / changed) each with exactly the prescribed single LMDB mutation or none; (R3) one step of iterBoth: six cells with exact callback arguments and exactly the consumed side(s) advancing; (R4) sortedness: an input key is accepted only if first or strictly greater than the previous one in the selected order, rejected only otherwise; (R5) comparator: integer comparator exactly for integerKey on little-endian hosts, three-way table, decoder widths; (R7) EmptyPut: Drop(dbi, false) before refill; setNewVal table. Further (R8): a strategy fails only when the iterator or LMDB failed or the input order is wrong (no own rejections); Update never bypasses the per-key lookup; the endianness probe selects the integer comparator correctly.",
 		NotDecided:  "Extensional equality with a map-based reference over all inputs; LMDB cursor semantics; keys of mixed widths in one integer-key DBI.",
 		Assumptions: []string{"LMDB cursor iteration is in the DBI's key order"},
 	}, func(c *Check) {
@@ -303,13 +303,13 @@ func init() {
 		ruleEmptyPut(c, "C19-R7")
 		ruleSetNewVal(c, "C19-R7")
 		c.Rule("C19-R8", "NO-OWN-REJECTION: a strategy fails only when the iterator or LMDB failed or the input order is wrong")
-		ruleNoOwnRejection(c, "C19-R8", fnStratUpd, "?lmdbenv/strategy.doPut", fnEmptyPut, "?lmdbenv/strategy.setNewVal", fnIterUpd+"$callback", "lmdbenv/strategy.iterBoth", "lmdbenv/strategy.Append")
+		ruleNoOwnRejection(c, "C19-R8", fnStratUpd, "?lmdbenv/strategy.doPut", fnEmptyPut, "?lmdbenv/strategy.setNewVal", iterUpdateCallback(c.P), "lmdbenv/strategy.iterBoth", "lmdbenv/strategy.Append")
 	})
 }
 
 func init() {
 	register("C12", propMeta{
-		Explanation: staticNote + "Decides the cleaner's rules from the code: (R1) who may Delete/Store blobs (cleaner.RunOnce and SendOnce only; offline CLI commands allow-listed and proven unreachable from Sync); (R2) what is deleted: FullName of successfully parsed snapshot-kind names from List(ctx, name+\"__\"), after sort(newest first) ∘ keep-interval filter ∘ newest-protection filter, or a stale-list entry; (R3) keep-interval table (first seen strictly more than MustKeepInterval ago); (R4) comparator table (newest first at full resolution) and newest-protection table; (R5) the stale-instance Delete only under !Timestamp.After(GetCommitted(instance)) and entries enter the stale list only when older than RemoveOldInstancesInterval; (R6) a List error returns before any Delete, a Delete error changes nothing; (R7) receive-only: disabled cleaner, no Store.",
+		Explanation: staticNote + "Decides the cleaner's rules from the code: (R1) who may Delete/Store blobs (cleaner.RunOnce and SendOnce only; offline CLI commands allow-listed and proven unreachable from Sync); (R2) what is deleted: FullName of successfully parsed snapshot-kind names from List(ctx, name+\"__\"), after sort(newest first) ∘ keep-interval filter ∘ newest-protection filter, or a stale-list entry; (R3) keep-interval table (first seen strictly more than MustKeepInterval ago); (R4) comparator table (newest first at full resolution) and newest-protection table; (R5) the stale-instance Delete only under !Timestamp.After(GetCommitted(instance)) and entries enter the stale list only when older than RemoveOldInstancesInterval; (R6) a List error returns before any Delete, a Delete error changes nothing; (R7) receive-only: disabled cleaner, no Store. Further: Config.Check establishes storage_retry_count >= 1 (an upload that never happened must not be reported as committed); names are parsed strictly by position.",
 		NotDecided:  "Eventual removal / boundedness of the number of files (liveness); clocks.",
 		Assumptions: []string{"slices.SortFunc and lo.Filter behave as documented (stable filtering in order)"},
 	}, func(c *Check) {
@@ -330,7 +330,7 @@ func init() {
 	})
 
 	register("C13", propMeta{
-		Explanation: staticNote + "Decides the sweeper's per-entry table and scope: (R1) in the slice body an entry is deleted exactly when its header parses, the deleted flag is set and timestamp < cutoff (strict), as Del(dbi, scanner key, scanner value); (R2) the cutoff is now − RetentionDuration(), assigned once before the first slice, and RetentionDuration() is days × 24h without truncation (expression evaluated on sample configurations); (R3) a sweep transaction is opened only in native mode or for a DBI with the private prefix (same constant as the syncer's); (R4) that Del is the only LMDB mutator reachable from the sweeper; (R5) the slice resume cursor is fresh per DBI and recorded unconditionally at the end of each slice.",
+		Explanation: staticNote + "Decides the sweeper's per-entry table and scope: (R1) in the slice body an entry is deleted exactly when its header parses, the deleted flag is set and timestamp < cutoff (strict), as Del(dbi, scanner key, scanner value); (R2) the cutoff is now − RetentionDuration(), assigned once before the first slice, and RetentionDuration() is days × 24h without truncation (expression evaluated on sample configurations); (R3) a sweep transaction is opened only in native mode or for a DBI with the private prefix (same constant as the syncer's); (R4) that Del is the only LMDB mutator reachable from the sweeper; (R5) the slice resume cursor is fresh per DBI and recorded unconditionally at the end of each slice. Further (R6/R7): a slice resumes with SetRange on the saved (key, value) and steps past it exactly when it landed on that same entry; a failed slice transaction ends the pass with an error before the resume flag is looked at; the cutoff conversion cannot wrap; raw-read mode is not used.",
 		NotDecided:  "That every expired marker is removed across slices (depends on lmdbscan's runtime behaviour); concurrency with application writes (LMDB write lock trusted).",
 		Assumptions: []string{"lmdbscan.Scanner iterates the DBI in order; Del(key, value) removes exactly that entry"},
 	}, func(c *Check) {
@@ -352,7 +352,7 @@ func init() {
 
 func init() {
 	register("C16", propMeta{
-		Explanation: staticNote + "Decides delivery/limit structure: (R1) in Downloader.LoadOnce every acquired token is released on every path or handed to the stored update's OnClose, which releases it; (R2) a replaced, not yet merged snapshot is closed; (R3) the sync loop closes every update it obtained directly after LoadOnce; (R4) a failed load sleeps (cancellable) and re-reads the newest name, and/or the receiver notifies on every change of an instance's newest name, so an older decodable snapshot is delivered when the newest is corrupt; corrupt blobs are marked only on decode errors, copied into the ignore list, which gates the listing; (R5) syncLoop returns nil only under OnlyOnce ∧ waiting set empty; instances that disappeared are removed from the waiting set; (R6) the limiter's channel capacity equals the number of tokens, Tokens are minted only after a receive, Release is idempotent; (R7) Next removes what it hands out under the lock.",
+		Explanation: staticNote + "Decides delivery/limit structure: (R1) in Downloader.LoadOnce every acquired token is released on every path or handed to the stored update's OnClose, which releases it; (R2) a replaced, not yet merged snapshot is closed; (R3) the sync loop closes every update it obtained directly after LoadOnce; (R4) a failed load sleeps (cancellable) and re-reads the newest name, and/or the receiver notifies on every change of an instance's newest name, so an older decodable snapshot is delivered when the newest is corrupt; corrupt blobs are marked only on decode errors, copied into the ignore list, which gates the listing; (R5) syncLoop returns nil only under OnlyOnce ∧ waiting set empty; instances that disappeared are removed from the waiting set; (R6) the limiter's channel capacity equals the number of tokens, Tokens are minted only after a receive, Release is idempotent; (R7) Next removes what it hands out under the lock. Further: the download token covers the whole lifetime of the compressed blob; the receiver notifies on every change of an instance's newest name (required, not only the retry); without an InstanceReady hook an instance leaves the waiting set only for a snapshot-kind update; metric label arity (R7).",
 		NotDecided:  "Eventual delivery as a liveness property; relative speeds; memory actually held by decoded snapshots.",
 		Assumptions: []string{"simpleblob List/Load semantics"},
 	}, func(c *Check) {
@@ -378,7 +378,7 @@ func init() {
 
 func init() {
 	register("C20", propMeta{
-		Explanation: staticNote + "Extracts the encode and decode tables of the dupsort hack and interprets them (no code is run) on representative (key, value) pairs chosen from the statement (zero bytes next to the separator, values longer than the room left, boundary lengths, maximal keys): (R1) constant relations 511 / 255 / 4 / 1; (R2/R3) decode(encode(kv)) == kv on every cell, shadow key length <= 511, empty/oversized keys and malformed shadow keys refused, no index out of range; (R4) while encoding a DBI an equal or descending shadow key is refused; (R5) the transform is recorded when dumping and validated before merging (table); (R6) encode iff dupsort in the capture, decode+EmptyPut iff dupsort in the projection; native schema excludes the hack.",
+		Explanation: staticNote + "Extracts the encode and decode tables of the dupsort hack and interprets them (no code is run) on representative (key, value) pairs chosen from the statement (zero bytes next to the separator, values longer than the room left, boundary lengths, maximal keys): (R1) constant relations 511 / 255 / 4 / 1; (R2/R3) decode(encode(kv)) == kv on every cell, shadow key length <= 511, empty/oversized keys and malformed shadow keys refused, no index out of range; (R4) while encoding a DBI an equal or descending shadow key is refused; (R5) the transform is recorded when dumping and validated before merging (table); (R6) encode iff dupsort in the capture, decode+EmptyPut iff dupsort in the projection; native schema excludes the hack. Further: the shadow DBI is created with the allowed flag mask applied last.",
 		NotDecided:  "Reversibility over all byte strings (only the representative cells are interpreted); the full mirror cycle on real LMDB.",
 		Assumptions: []string{"the representative lengths cover the boundaries of the extracted conditions (every constant in the tables is hit on both sides)"},
 	}, func(c *Check) {
@@ -399,7 +399,7 @@ func init() {
 	})
 
 	register("C11", propMeta{
-		Explanation: staticNote + "Decides the mirror's decision tables and plumbing: (R1) capture table: an unchanged application value keeps its entry and timestamp, a changed or new one is stamped with the detection time; (R2) a key missing from the application DBI becomes a marker (Clean), via the IterUpdate table; (R3) the projection writes exactly the shadow value and deletes the key of a marker (reports the known empty-value defect); (R4) key order: IterUpdate derives integerKey from the DBI's MDB_INTEGERKEY flag, the comparator is selected by it, shadow DBIs are created with that flag from the application DBI (both creation sites); (R5) the sortedness check never rejects a valid first key; (R6) the detection time is taken inside the write transaction; (R7) both passes visit every non-private DBI; raw-read mode is restored after a dump.",
+		Explanation: staticNote + "Decides the mirror's decision tables and plumbing: (R1) capture table: an unchanged application value keeps its entry and timestamp, a changed or new one is stamped with the detection time; (R2) a key missing from the application DBI becomes a marker (Clean), via the IterUpdate table; (R3) the projection writes exactly the shadow value and deletes the key of a marker (reports the known empty-value defect); (R4) key order: IterUpdate derives integerKey from the DBI's MDB_INTEGERKEY flag, the comparator is selected by it, shadow DBIs are created with that flag from the application DBI (both creation sites); (R5) the sortedness check never rejects a valid first key; (R6) the detection time is taken inside the write transaction; (R7) both passes visit every non-private DBI; raw-read mode is restored after a dump. Further (R8): raw-read mode is never on in a write transaction (complete set of writers of Txn.RawRead enumerated); the endianness probe stores true exactly under the low-byte-first outcome.",
 		NotDecided:  "The mirror's extensional equality with a reference over all contents; changes made while the syncer is down.",
 		Assumptions: []string{"instances share one monotone clock (documented)"},
 	}, func(c *Check) {
@@ -439,7 +439,7 @@ func init() {
 
 func init() {
 	register("C14", propMeta{
-		Explanation: staticNote + "Decides header well-formedness structurally and by interpreting extracted terms: (R1) PutBasic writes all 24 bytes (big-endian timestamp and txn id, version 0, the flags argument, reserved and extension count 0); (R2) layout constants equal the documented layout; flag helper meanings; (R3) every value Lightning Stream assembles is: buffer reset to 24 bytes → PutBasic → optional padding block with count 1 → the application value last; (R4) only synced flags are written for all raw incoming flags, a deleted entry is written without value, the txn id is the iterator's; (R5) the iterator's txn id is txn.ID() of the writing transaction at both construction sites; (R6) the extracted Parse and Skip tables, interpreted on byte strings around every length boundary and extension counts up to 65535, reject exactly the too-short / wrong-version values, return what follows all extension blocks, never index out of range, and agree with each other.",
+		Explanation: staticNote + "Decides header well-formedness structurally and by interpreting extracted terms: (R1) PutBasic writes all 24 bytes (big-endian timestamp and txn id, version 0, the flags argument, reserved and extension count 0); (R2) layout constants equal the documented layout; flag helper meanings; (R3) every value Lightning Stream assembles is: buffer reset to 24 bytes → PutBasic → optional padding block with count 1 → the application value last; (R4) only synced flags are written for all raw incoming flags, a deleted entry is written without value, the txn id is the iterator's; (R5) the iterator's txn id is txn.ID() of the writing transaction at both construction sites; (R6) the extracted Parse and Skip tables, interpreted on byte strings around every length boundary and extension counts up to 65535, reject exactly the too-short / wrong-version values, return what follows all extension blocks, never index out of range, and agree with each other. Further (R7): PutBasic (which zeroes the extension count) is only applied to fresh buffers or the iterator's scratch field, in the daemon and in the CLI commands; the sweeper validates stored values through header.Parse.",
 		NotDecided:  "Values written by the application itself; Header.Bytes()/doBytes (not used by the syncer's write path).",
 		Assumptions: []string{"encoding/binary big-endian semantics"},
 	}, func(c *Check) {
@@ -478,7 +478,7 @@ func init() {
 
 func init() {
 	register("C15", propMeta{
-		Explanation: staticNote + "Decides the structural conditions of round-tripping, chronologically sorting names: (R1) the time layout tokenises to fixed-width zero-padded numeric fields, most significant first, down to nanoseconds; dotIndex is its '.'; NameTimestamp is ts.UTC().Format(layout) with '.'→'-'; (R2) BuildName writes database, instance, timestamp, generation, extras joined by \"__\", then '.' and the extension; ParseName cuts the extension at the first '.', requires a registered extension, splits on the same \"__\" into the same four fields in the same order, checks length and '-' and parses with the same layout; (R3) instanceID() returns reUnsafe.ReplaceAllString(n, \"-\") on every path and reUnsafe (parsed with regexp/syntax) replaces '_', '.', and everything outside [a-zA-Z0-9-]; (R4) receiver and cleaner list name+\"__\" and consider only successfully parsed names of kind snapshot.",
+		Explanation: staticNote + "Decides the structural conditions of round-tripping, chronologically sorting names: (R1) the time layout tokenises to fixed-width zero-padded numeric fields, most significant first, down to nanoseconds; dotIndex is its '.'; NameTimestamp is ts.UTC().Format(layout) with '.'→'-'; (R2) BuildName writes database, instance, timestamp, generation, extras joined by \"__\", then '.' and the extension; ParseName cuts the extension at the first '.', requires a registered extension, splits on the same \"__\" into the same four fields in the same order, checks length and '-' and parses with the same layout; (R3) instanceID() returns reUnsafe.ReplaceAllString(n, \"-\") on every path and reUnsafe (parsed with regexp/syntax) replaces '_', '.', and everything outside [a-zA-Z0-9-]; (R4) receiver and cleaner list name+\"__\" and consider only successfully parsed names of kind snapshot. Further: Timestamp.Time is uniformly time.Unix(0, int64(ts)).",
 		NotDecided:  "time.Format/Parse behaviour over 1970–2262; injectivity beyond field order; database names containing the separator (documented alphabet).",
 		Assumptions: []string{"database and sanitised instance names contain neither \"__\" nor '.' (documented safe alphabet)"},
 	}, func(c *Check) {
@@ -498,9 +498,9 @@ func init() {
 
 func init() {
 	register("C17", propMeta{
-		Explanation: staticNote + "Decides lock discipline and cancellation structurally: (R1) guarded-by: every access to the fields the repository documents as mutex-protected happens with the mutex of the same object held (all functions of the concurrent packages, helpers inlined two levels so locks held by callers count); (R2) the cleaner's committed map is a private copy, never an alias of the sync loop's map; (R3) no blocking operation (channel operation without default, storage call, sleep, token acquire, publish) while a mutex is held — reports the known Publish-under-lock defect; sends to and closes of subscriber channels are serialised by the topic's mutex; (R4) nested lock acquisitions are acyclic; (R5) GetGlobal returns the storage only when non-nil and panics only if still nil after waiting; (R6) every unbounded loop of the goroutine bodies passes a cancellation point on every cycle; (R7) Token.Release is idempotent under its mutex.",
-		NotDecided:  "Races on fields outside the guarded-by table; third-party internals; the schedules themselves.",
-		Assumptions: []string{"the guarded-by table (from the field comments) is complete for shared mutable state"},
+		Explanation: staticNote + "Decides lock discipline and cancellation structurally: (R1) guarded-by: every access to the fields the repository documents as mutex-protected happens with the mutex of the same object held (all functions of the concurrent packages, helpers inlined two levels so locks held by callers count); (R2) the cleaner's committed map is a private copy, never an alias of the sync loop's map; (R3) no blocking operation (channel operation without default, storage call, sleep, token acquire, publish) while a mutex is held — reports the known Publish-under-lock defect; sends to and closes of subscriber channels are serialised by the topic's mutex; (R4) nested lock acquisitions are acyclic; (R5) GetGlobal returns the storage only when non-nil and panics only if still nil after waiting; (R6) every unbounded loop of the goroutine bodies passes a cancellation point on every cycle; (R7) Token.Release is idempotent under its mutex. Further (R8-R10): static lockset over all fields of the component struct types and package-level variables — written after construction, reachable from goroutines not ordered by start-up (VTA call graph, go statements as roots) ⇒ a common lock at every access; a locally built map is not modified after publication except under the publishing lock; a function that subscribes and keeps the subscription closes it on every path out; subscriber channels are closed at most once; readiness of the global storage is a broadcast; SleepContext is a cancellation point on every path.",
+		NotDecided:  "Races on memory reached through slices/maps handed between goroutines other than published maps, hand-over discipline of the snapshot message types, the command-line layer; third-party internals; the schedules themselves.",
+		Assumptions: []string{"one goroutine per started root and object (one Run per Downloader/Receiver/cleaner/sweeper); objects of the snapshot message types are owned by one goroutine at a time"},
 	}, func(c *Check) {
 		c.Rule("C17-R1", "GUARDED-BY")
 		c.Rule("C17-R2", "COMMITTED-MAP-COPIED (no sharing of the sync loop's map with the cleaner)")
@@ -527,7 +527,7 @@ func init() {
 
 func init() {
 	register("C07", propMeta{
-		Explanation: staticNote + "Decides the structural conditions of a lossless, wire-compatible codec: (R1) for KV, DBI, Snapshot and Meta the (field number, wire type) tables of the generated reference schema (struct tags), of the Field* constants, of the hand-written writers (EncodeTag sites) and of the hand-written readers (switch cases with expectWT / get* helpers) are equal; (R2) the size phase of DBI.Append declares exactly what the emit phase writes and reserves exactly header+message, interpreted on the extracted events for lengths across every varint boundary, and the buffer has capacity after growth; (R3) every decode/skip call in the cursor parsers reads from the buffer sliced at the advancing cursor; (R4) unknown fields are skipped by wire type in every reader; (R5) decoders merge into their receiver and never reset it.",
+		Explanation: staticNote + "Decides the structural conditions of a lossless, wire-compatible codec: (R1) for KV, DBI, Snapshot and Meta the (field number, wire type) tables of the generated reference schema (struct tags), of the Field* constants, of the hand-written writers (EncodeTag sites) and of the hand-written readers (switch cases with expectWT / get* helpers) are equal; (R2) the size phase of DBI.Append declares exactly what the emit phase writes and reserves exactly header+message, interpreted on the extracted events for lengths across every varint boundary, and the buffer has capacity after growth; (R3) every decode/skip call in the cursor parsers reads from the buffer sliced at the advancing cursor; (R4) unknown fields are skipped by wire type in every reader; (R5) decoders merge into their receiver and never reset it. Further (R6/R7): no encoder result aliases package-level storage; every encoder scratch buffer is at least as long as the most that can be written into it for all field lengths (linear bounds, followed into helpers, with recognition of a dominating fit test); the Append table is also evaluated at the buffer states around \"exactly enough room\"; the DBI reader reports io.EOF only at the end of the data.",
 		NotDecided:  "Round-trip equality for all inputs (byte content of the emitted fields is not interpreted); the csproto decoder used for the outer message; gzip.",
 		Assumptions: []string{"csproto.EncodeTag/EncodeVarint write SizeOfVarint bytes; copy copies len(src) bytes into the reserved space"},
 	}, func(c *Check) {
@@ -549,7 +549,7 @@ func init() {
 	})
 
 	register("C08", propMeta{
-		Explanation: staticNote + "Decides the parser discipline that keeps hostile blobs from crashing or hanging the process: (R1) every slice bounded by a wire-derived length is dominated, on its path, by 'length >= 0' and 'length <= remaining bytes'; fixed-size reads by a remaining-bytes check; skipTag returns only constants, decoded varint lengths, or a 64-bit length bounded by len(data) before its conversion to int, each checked against len(data); (R2) every cycle of the cursor loops advances the cursor by at least one decoded varint and reads at the cursor; (R3) no explicit panic is on a feasible path reachable from the decode entry points; (R4) an undecodable blob is marked corrupt (token released, remembered as processed), copied into the ignore list that gates the listing, and the older decodable snapshot is still delivered; (R5) every decode error surfaces to the caller; (R6) pre-allocations depend only on the blob's length; the decoder's field-length limit keeps its arithmetic from overflowing.",
+		Explanation: staticNote + "Decides the parser discipline that keeps hostile blobs from crashing or hanging the process: (R1) every slice bounded by a wire-derived length is dominated, on its path, by 'length >= 0' and 'length <= remaining bytes'; fixed-size reads by a remaining-bytes check; skipTag returns only constants, decoded varint lengths, or a 64-bit length bounded by len(data) before its conversion to int, each checked against len(data); (R2) every cycle of the cursor loops advances the cursor by at least one decoded varint and reads at the cursor; (R3) no explicit panic is on a feasible path reachable from the decode entry points; (R4) an undecodable blob is marked corrupt (token released, remembered as processed), copied into the ignore list that gates the listing, and the older decodable snapshot is still delivered; (R5) every decode error surfaces to the caller; (R6) pre-allocations depend only on the blob's length; the decoder's field-length limit keeps its arithmetic from overflowing. Further: the wait set drops instances whose snapshots all became undecodable; metric vectors get as many label values as they declare (R7).",
 		NotDecided:  "Time/memory proportionality in general (gzip ratio); internals of csproto and gzip; a blob whose framing decodes but whose entries are malformed fails later inside the merge (policy stated in the code).",
 		Assumptions: []string{"csproto.DecodeVarint: on success 1 <= n <= len(p)"},
 	}, func(c *Check) {
